@@ -17,7 +17,7 @@ INFO = {
         'rating(mu, sigma) give syntactically identical result terms for a second rate() and the three predictions - bit identity in every '
         'number model, since no operation depends on anything but the two values.'),
     'bounds': {
-        'quick': 'five models; restore (PL/BT): first game (1,1) win, second game rate (1,1) win/tie + 3 predictions; create: containers of length 0-3',
+        'quick': 'five models; restore (PL/BT): first game (1,1) win (limit_sigma off and on), baseline = the very objects rate() returned, second game rate (1,1) win/tie + 3 predictions; create: containers of length 0-3',
         'thorough': '+ restore for TM (1,1), restore with first game (2,1) for PL/BT',
     },
     'outside': ['element / container kinds not on the menus (printed in the samples)', 'longer leagues (each step is the same obligation)'],
@@ -45,6 +45,10 @@ def jobs(tier):
         for s1, s2, tie in cells:
             out.append({'name': f'{key}-restore-{H.shape_str(s1)}-{H.shape_str(s2)}-{"tie" if tie else "win"}', 'mode': 'restore',
                         'model': key, 's1': list(s1), 'tie': tie, 'budget': 900, 'cost': 200 if tm else 40})
+            if not tie and s1 == (1, 1):
+                # first game with the limit_sigma clamp in force (the clamp writes sigma after the update proper)
+                out.append({'name': f'{key}-restore-{H.shape_str(s1)}-{H.shape_str(s2)}-win-ls', 'mode': 'restore', 'ls': True,
+                            'model': key, 's1': list(s1), 'tie': tie, 'budget': 900, 'cost': 300 if tm else 80})
     return out
 
 
@@ -291,6 +295,26 @@ def copy_problems(key):
     return probs
 
 
+def _restore_runs(Model, m, post, ranks2):
+    """[original objects, rebuilt with create_rating, rebuilt with rating]: each = [second game, predict_win, predict_draw, predict_rank].
+    The baseline uses the very objects rate() returned (predictions first: they do not mutate; the second game last)."""
+    stored = [[(p.mu, p.sigma) for p in t] for t in post]
+    base_pred = [list(m.predict_win(post)), m.predict_draw(post), [list(x) for x in m.predict_rank(post)]]
+    res = []
+    for how in ('create', 'rating'):
+        if how == 'create':
+            def mkteams():
+                return [[Model.create_rating([a, b]) for (a, b) in t] for t in stored]
+        else:
+            def mkteams():
+                return [[m.rating(a, b) for (a, b) in t] for t in stored]
+        r2 = m.rate(mkteams(), ranks=ranks2)
+        res.append([[[(p.mu, p.sigma) for p in t] for t in r2], list(m.predict_win(mkteams())), m.predict_draw(mkteams()),
+                    [list(x) for x in m.predict_rank(mkteams())]])
+    r2 = m.rate(post, ranks=ranks2)
+    return [[[[(p.mu, p.sigma) for p in t] for t in r2]] + base_pred] + res
+
+
 def run_restore(spec, ctx):
     import z3
     from sx import core
@@ -303,25 +327,12 @@ def run_restore(spec, ctx):
     ranks1 = list(range(len(s1)))
     ranks2 = [0] * len(s1) if tie else list(range(len(s1) - 1, -1, -1))
 
+    ls = bool(spec.get('ls'))
+
     def run_with(mkf):
         m, teams = H.build_game(Model, s1, mkf)
-        post = m.rate(teams, ranks=ranks1)
-        stored = [[(p.mu, p.sigma) for p in t] for t in post]
-        res = []
-        for how in ('same', 'create', 'rating'):
-            if how == 'same':
-                def mkteams():
-                    return [[copy.deepcopy(p) for p in t] for t in post]
-            elif how == 'create':
-                def mkteams():
-                    return [[Model.create_rating([a, b]) for (a, b) in t] for t in stored]
-            else:
-                def mkteams():
-                    return [[m.rating(a, b) for (a, b) in t] for t in stored]
-            r2 = m.rate(mkteams(), ranks=ranks2)
-            res.append([[[(p.mu, p.sigma) for p in t] for t in r2], list(m.predict_win(mkteams())), m.predict_draw(mkteams()),
-                        [list(x) for x in m.predict_rank(mkteams())]])
-        return res
+        post = m.rate(teams, ranks=ranks1, limit_sigma=ls)
+        return _restore_runs(Model, m, post, ranks2)
 
     for (kind, out), eng in core.iter_paths(lambda: run_with(mk), base, H.draw_fn(s1), opts={'deadline': ctx.deadline}):
         ctx.paths += 1
@@ -355,7 +366,7 @@ def run_restore(spec, ctx):
                     r, m = eng.check(timeout=20000)
                     inp = core.model_inputs(m, H.sym_names(s1)) if r == 'sat' else None
                 ctx.ob(f'rebuilt with {how}: result terms differ', 'sat' if inp else 'unknown',
-                       {'mode': 'restore', 'model': key, 's1': list(s1), 'tie': tie, 'inputs': inp} if inp else None)
+                       {'mode': 'restore', 'model': key, 's1': list(s1), 'tie': tie, 'ls': ls, 'inputs': inp} if inp else None)
         ctx.add_engine(eng)
 
 
@@ -423,19 +434,8 @@ def replay(cand):
         return {'violated': bool(probs), 'key': f'{key}:copy', 'detail': f'C20 {H.MODEL_NAMES[key]}: ' + '; '.join(probs[:3])}
     s1, tie, inp = tuple(cand['s1']), cand['tie'], cand['inputs']
     m, teams = H.build_game(Model, s1, H.float_maker(inp))
-    post = m.rate(teams, ranks=list(range(len(s1))))
-    stored = [[(p.mu, p.sigma) for p in t] for t in post]
+    post = m.rate(teams, ranks=list(range(len(s1))), limit_sigma=bool(cand.get('ls')))
     ranks2 = [0] * len(s1) if tie else list(range(len(s1) - 1, -1, -1))
-    outs = []
-    for how in ('same', 'create', 'rating'):
-        def mkteams():
-            if how == 'same':
-                return [[copy.deepcopy(p) for p in t] for t in post]
-            if how == 'create':
-                return [[Model.create_rating([a, b]) for (a, b) in t] for t in stored]
-            return [[m.rating(a, b) for (a, b) in t] for t in stored]
-        r2 = m.rate(mkteams(), ranks=ranks2)
-        outs.append(list(H._flatten([[[(p.mu, p.sigma) for p in t] for t in r2], list(m.predict_win(mkteams())), m.predict_draw(mkteams()),
-                                     [list(x) for x in m.predict_rank(mkteams())]])))
+    outs = [list(H._flatten(x)) for x in _restore_runs(Model, m, post, ranks2)]
     bad = outs[0] != outs[1] or outs[0] != outs[2]
     return {'violated': bool(bad), 'key': f'{key}:restore', 'detail': f'C20 {H.MODEL_NAMES[key]} restore after game {s1}, inputs={inp}: {outs}'}
